@@ -59,7 +59,7 @@ func seqPart(c *vf.Ctx) {
 				l.setOne(uni, []sop{a})
 			}
 			// the one-step prefix is evaluated by the task with i%len==0; a failing prefix is not extended
-			if st, _, _, _ := runSetSeq(uni, []sop{a}, 0); st == 1 {
+			if st, _, _, _ := runSetSeq(uni, []sop{a}, 0, nil); st == 1 {
 				if seq := []sop{a, b}; l.setOne(uni, seq) && maxLen > 2 {
 					l.setDFS(uni, alpha, seq, maxLen)
 				}
@@ -67,8 +67,9 @@ func seqPart(c *vf.Ctx) {
 			l.merge(c)
 		})
 	}
+	c.Extra("phase_s_seq_set_exhaustive", int(time.Since(startT).Seconds()))
 	// ds.Set: random long histories over 6 elements
-	nSet := c.Pick(12000, 150000)
+	nSet := c.Pick(10000, 150000)
 	vf.Parallel(64, workers, func(i int) {
 		l := newLocal()
 		rng := c.Rand(fmt.Sprintf("set-random/%d", i))
@@ -78,6 +79,7 @@ func seqPart(c *vf.Ctx) {
 		l.counts["set_random_histories"] += nSet / 64
 		l.merge(c)
 	})
+	c.Extra("phase_s_seq_set_random", int(time.Since(startT).Seconds()))
 	// OrderedMap: exhaustive over 3 keys, random over 6
 	{
 		const uni = 3
@@ -98,6 +100,7 @@ func seqPart(c *vf.Ctx) {
 		})
 		c.Count("map_exhaustive_max_length", maxLen)
 	}
+	c.Extra("phase_s_seq_map_exhaustive", int(time.Since(startT).Seconds()))
 	nMap := c.Pick(6000, 60000)
 	vf.Parallel(64, workers, func(i int) {
 		l := newLocal()
@@ -108,6 +111,7 @@ func seqPart(c *vf.Ctx) {
 		l.counts["map_random_histories"] += nMap / 64
 		l.merge(c)
 	})
+	c.Extra("phase_s_seq_map_random", int(time.Since(startT).Seconds()))
 	// SetArithmetic
 	nAr := c.Pick(20000, 300000)
 	vf.Parallel(64, workers, func(i int) {
@@ -161,7 +165,7 @@ func reportDeadlock(c *vf.Ctx, idx, iters int, build, dump string) {
 // indices of the combinations that dead-locked.
 func combosPart(c *vf.Ctx) []int {
 	all := combos()
-	iters := c.Pick(120, 1200)
+	iters := c.Pick(1000, 8000)
 	const W = 8
 	var mu sync.Mutex
 	var dead []int
@@ -191,7 +195,7 @@ func combosPart(c *vf.Ctx) []int {
 
 func linzPart(c *vf.Ctx) {
 	const W = 8
-	n := c.Pick(250, 4000) // histories of each kind per child
+	n := c.Pick(1500, 15000) // histories of each kind per child
 	vf.Parallel(W, W, func(w int) {
 		res := c.RunChild(vf.ChildOpts{Name: "linz", Args: []string{strconv.Itoa(w), strconv.Itoa(n)}, Timeout: 12 * time.Minute})
 		switch {
@@ -216,22 +220,22 @@ func classifyAndReport(c *vf.Ctx, races []vf.RaceReport) {
 	seen := map[string]bool{}
 	for _, r := range races {
 		c.Count("race_reports", 1)
-		a, b, constrained := classifyRace(r)
+		a, b, inner, constrained := classifyRace(r)
 		key := a + " <-> " + b
-		if seen[key+r.Key] {
+		if seen[key+inner] {
 			continue
 		}
-		seen[key+r.Key] = true
+		seen[key+inner] = true
 		if constrained {
 			c.Count("race_reports_inside_constrained_operations", 1)
 			txt := r.Text
 			if len(txt) > 6000 {
 				txt = txt[:6000]
 			}
-			c.Violation("race:"+key, fmt.Sprintf("data race between %s and %s (both are operations the statement constrains: single-element or Apply/Compute/Replace); innermost functions %s", a, b, r.Key), raceCase{Kind: "race", A: a, B: b, Report: txt})
+			c.Violation("race:"+key, fmt.Sprintf("data race between %s and %s (both are operations the statement constrains: single-element or Apply/Compute/Replace); innermost functions %s", a, b, inner), raceCase{Kind: "race", A: a, B: b, Report: txt})
 		} else {
 			c.Count("race_reports_outside_statement", 1)
-			c.Note(fmt.Sprintf("race outside the statement (not both stacks in single-element/atomic operations): %s <-> %s [%s]", a, b, r.Key))
+			c.Note(fmt.Sprintf("race outside the statement (not both stacks in single-element/atomic operations): %s <-> %s [%s]", a, b, inner))
 		}
 	}
 }
@@ -241,7 +245,7 @@ func racePart(c *vf.Ctx, dead []int) {
 	for _, d := range dead {
 		skip[d] = true
 	}
-	iters := c.Pick(40, 300)
+	iters := c.Pick(100, 600)
 	for attempt := 0; attempt < 60; attempt++ {
 		var sk []string
 		for d := range skip {
@@ -310,9 +314,7 @@ func child(c *vf.Ctx) {
 				c.Violation("concurrent-panic:"+strings.SplitN(p, ":", 2)[0], fmt.Sprintf("methods %s looped concurrently: %s", comboName(all[idx]), p),
 					deadlockCase{Kind: "panic", Methods: strings.Split(comboName(all[idx]), "||"), Index: idx, Iters: iters, Build: "plain", Blocked: p})
 			}
-			if idx%16 == 15 {
-				c.FlushStats()
-			}
+			c.FlushStats() // a dead-lock kills the process: nothing may be pending
 		}
 	case "linz":
 		idx, _ := strconv.Atoi(c.ChildArgs[0])
@@ -344,7 +346,7 @@ func child(c *vf.Ctx) {
 			}
 		}
 		c.Mark("linz")
-		linzChild(c, 100, c.Pick(60, 600))
+		linzChild(c, 100, c.Pick(300, 3000))
 		c.Mark("mapstress")
 		mapStress(c.Pick(3000, 30000), c.Seed)
 		c.Count("race_build_mapstress_runs", 1)
@@ -375,7 +377,7 @@ func replay(c *vf.Ctx) {
 	case "set":
 		var r setCase
 		_ = json.Unmarshal(raw, &r)
-		if step, fp, what, _ := runSetSeq(r.Universe, r.Ops, 0); fp != "" {
+		if step, fp, what, _ := runSetSeq(r.Universe, r.Ops, 0, nil); fp != "" {
 			r.Step, r.What = step, what
 			c.Violation("set:"+fp, "ds.Set history: "+what, r)
 		}
@@ -426,7 +428,7 @@ func replay(c *vf.Ctx) {
 		_ = json.Unmarshal(raw, &r)
 		res := c.RunChild(vf.ChildOpts{Name: "race", Race: true, Args: []string{"40", ""}, Timeout: 14 * time.Minute})
 		for _, rr := range res.Races {
-			if a, b, constrained := classifyRace(rr); constrained && a == r.A && b == r.B {
+			if a, b, _, constrained := classifyRace(rr); constrained && a == r.A && b == r.B {
 				c.Violation("race:"+a+" <-> "+b, "data race reproduced", r)
 				return
 			}
